@@ -210,6 +210,21 @@ def main():
             item["texts"] = first
             item["texts2"] = second
         results[i] = item
+    # programs marked "late" are produced once more at the end of the process, after everything else was built, generated
+    # and discarded: the text must still be the one produced first
+    import gc
+    gc.collect()
+    for rep in range(3):
+        for i in order:
+            p = progs[i]
+            if not p.get("late") or p["kind"] != "array":
+                continue
+            again = gen_array_program(p["outs"])
+            for k, v in again.items():
+                dv = digest(v) if not v.startswith(("EXC:", "BUILD-EXC:")) else v
+                if dv != results[i].get(k) and k not in results[i]["twice_differs"]:
+                    results[i]["twice_differs"] = sorted(set(results[i]["twice_differs"]) | {k})
+        gc.collect()
     sys.stdout.write(json.dumps({"results": results}) + "\n")
 
 
